@@ -95,13 +95,13 @@ const (
 )
 
 type op struct {
-	K string  `json:"k"`
-	M int     `json:"m"`
-	V variant `json:"v,omitempty"`    // add: message variant
-	L int     `json:"len,omitempty"`  // add/inbound: body length (0 = default)
-	T string  `json:"tag,omitempty"`  // add/inbound: content tag
-	F int     `json:"file,omitempty"` // add/inbound: attachment length
-	Rej bool  `json:"rej,omitempty"`  // sent: the 'rejected' argument (no observable effect expected)
+	K   string  `json:"k"`
+	M   int     `json:"m"`
+	V   variant `json:"v,omitempty"`    // add: message variant
+	L   int     `json:"len,omitempty"`  // add/inbound: body length (0 = default)
+	T   string  `json:"tag,omitempty"`  // add/inbound: content tag
+	F   int     `json:"file,omitempty"` // add/inbound: attachment length
+	Rej bool    `json:"rej,omitempty"`  // sent: the 'rejected' argument (no observable effect expected)
 }
 
 func (o op) String() string {
